@@ -54,7 +54,7 @@ static u8_t *parse(std::vector<std::string> args)
   return get_v_opt((int)keep.size(), argv.data());
 }
 
-static const int NOPS = 36;
+static const int NOPS = 37;
 static const char *opname[NOPS] = {"encA(T1,n20,cbc,sha1)", "encB(T2,n70,ctr,md5)", "encC(T4,n100,ofb,sha256)", "decA(valid)", "decB(wrong key)", "decB(tampered)",
                                    "dec(garbage)", "dec(mode byte 9)", "verB(valid)", "verB(tampered)", "parse(-V)", "parse(-x unknown)", "parse(-dex aborts in cluster)",
                                    "parse(-e -i F -o O -k K --cmode 2)", "decB(valid,T2)", "decB(valid) into an output that cannot be written (/dev/full)",
@@ -66,7 +66,8 @@ static const char *opname[NOPS] = {"encA(T1,n20,cbc,sha1)", "encB(T2,n70,ctr,md5
                                    // a wrong key that is the RIGHT key of another file with another hash mode: anything cached per key or per hash mode across operations
                                    "verA(with keyB)", "decB(with keyC)", "verC(with keyA)",
                                    // rejected command lines that exercise libc state (errno, strtol ranges) before a well-formed one
-                                   "parse(-e -i F --cmode 99999999999999999999)", "parse(-d -i missing -o O -k bad)"};
+                                   "parse(-e -i F --cmode 99999999999999999999)", "parse(-d -i missing -o O -k bad)",
+                                   "encB into an output that cannot be written (/dev/full)"};
 static void do_op(int op, bool &ret, std::vector<u8_t> &out)
 {
   OpResult r;
@@ -191,6 +192,20 @@ static void do_op(int op, bool &ret, std::vector<u8_t> &out)
       r.ret = rc.execute_encrypt(fx.PB.size(), sd.data());
     }
     r.out = out.bytes();
+    break;
+  }
+  case 36:
+  {
+    MemFile in(fx.PB);
+    FILE *full = fopen("/dev/full", "wb+");
+    auto sd = fx.seed;
+    sd.push_back(0);
+    Settings st(2, 1, true);
+    {
+      runcrypt rc(in.f, full, fx.keyB.data(), st, 2);
+      r.ret = rc.execute_encrypt(fx.PB.size(), sd.data());
+    }
+    r.out.clear();
     break;
   }
   case 34:
